@@ -168,6 +168,27 @@ func c13(p *core.Prog, r *core.Report) {
 		})
 		r.Check(ok, "C13-R1", fname(f), "frame type == expected message type before decoding", p.Pos(f.Pos()), "decode only under the type equality", "a frame of another type is decoded as the expected message")
 	}
+	// the socket address an ephemeral peer is re-identified by is the remote
+	// end of the connection at every call site of parseRemotePeer
+	nSites := 0
+	for _, cs := range p.CallsTo("parseRemotePeer") {
+		if !p.InAnalysed(cs.Fn) {
+			continue
+		}
+		nSites++
+		args := core.CallArgs(cs.Call)
+		ok := false
+		if len(args) == 2 {
+			if c, isC := args[1].(*ssa.Call); isC && c.Call.IsInvoke() && c.Call.Method.Name() == "RemoteAddr" {
+				ok = true
+			}
+		}
+		r.Check(ok, "C13-R5", fname(cs.Fn), "parseRemotePeer is given the connection's RemoteAddr()", p.Pos(cs.Call.Pos()), "the socket address used for an ephemeral peer is the remote end",
+			"an ephemeral peer would be identified by "+desc(args[len(args)-1])+" instead of the remote socket address")
+	}
+	if nSites < 2 {
+		r.Errorf("expected parseRemotePeer to be called by both handshakes, found %d call sites", nSites)
+	}
 	// parseRemotePeer requires both params
 	if f := mustFunc(p, r, "", "", "parseRemotePeer"); f != nil {
 		need := map[string]bool{}
